@@ -29,8 +29,8 @@ SPEC = {
     "lean_modules": ["TrustVerif.Props.C15"],
     "translators": [translate_glue, build_lsp],
     "tiers": {
-        "quick": {"cases": 330, "extra": {"lexreps": 4}},
-        "thorough": {"cases": 12000, "extra": {"lexreps": 99}},
+        "quick": {"cases": 372, "extra": {"lexreps": 4, "gluecases": 42}},
+        "thorough": {"cases": 12420, "extra": {"lexreps": 99, "gluecases": 420}},
     },
     # model and implementation are compared on the formatters' complete replies; what the property
     # itself says is evaluated on the implementation's output by the oracle (extra()), so a
